@@ -684,7 +684,10 @@ def run(ctx):
                 'maxit = 0, start outside the box), convergence (sum c/x, feasible start), convergence-stress (48 deliberate sum c/x problems on every run: start '
                 'volume above / below / at maxvol so that the objective must rise during the move-limited steps, move 0.05 / 0.2, tolerances default / '
                 'tolf=0 / tolf=0,tolx=0 with 40 iterations / tight, interior and bound-clipped optima, 1-4 signals incl. scalars and 2-D; the oracle '
-                'demands the final design within 2e-3 of the analytic (KKT) optimum and its volume at maxvol); every recorded signal state at every response(), every warning and the final states '
+                'demands the final design within 2e-3 of the analytic (KKT) optimum and its volume at maxvol), int-states / mixed-states / f32-states (initial states handed over '
+                'as Python int, numpy int32 / int64 / float32 scalars and arrays, alone and mixed with floats; corpus state_kinds.json on every run; the model keeps integers as '
+                'integers; for EVERY problem dtype, values and cumulative indices of the design vector that pymoto.utils._concatenate_to_array builds from the initial states '
+                'are compared with the typed model of Model/MMAvars.v); every recorded signal state at every response(), every warning and the final states '
                 'are compared bit-exactly (binary64) with the Coq model; a case is non-trivial when at least one design was written back; '
                 'distinct by the full problem description')
     ctx.assumptions += [
@@ -695,6 +698,7 @@ def run(ctx):
         'convergence to the analytic optimum is validated (fixed point is proved)',
         'volume clause demanded when the target is reachable by the update within the move limits and l1init is below the root',
         'l2init is a float (a Python int l2init grown beyond 2^53 by the bracket-growing loop is not modelled)',
+        'integer-typed initial states are small integers (1, 2) and float32 states multiples of 1/64, so the conversion to float64 by the concatenation is exact',
         'runs whose step-size test is decided by less than 1e-9 relative are not compared (np.linalg.norm summation order not modelled)']
     ctx.trusted += [
         'Print Assumptions: theorems over R use ClassicalDedekindReals.sig_forall_dec, sig_not_dec, '
@@ -703,6 +707,7 @@ def run(ctx):
         'Coq primitive floats implement IEEE-754 binary64 (+ - * / sqrt, comparisons) like numpy; Base/PyFloat.np_sum reproduces numpy\'s '
         'pairwise summation (validated bit-for-bit on every run)',
         'tools/gen_C17.py (T-real translator of the update formula, bisection step, tests, defaults; literal comparison of the control skeleton)',
+        'tools/gen_utils.py (array-bookkeeping dialect for pymoto/utils.py) and the numpy dtype semantics embodied in Model/MMAvars.v (promotion table validated by check C10)',
         'np.linalg.norm is patched from outside during the runs only to record its results (borderline filter)']
     vlib.audit(ctx)
     if not vlib.ensure_static(ctx):
